@@ -16,7 +16,22 @@ type Val struct {
 	Tup   []Val
 	Clo   *closureVal
 	Ghost bool // a ghost (total) map
-	Cell  *Val // spec-mode local cell (captured variable)
+	Cell  *cellRef // address of (part of) a local variable kept outside the heap
+}
+
+// cellRef addresses a local variable (or a field/element of it) that does not escape; such
+// variables live in State.cells rather than in the heaps.
+type cellRef struct {
+	key  int
+	path []cellStep
+	typ  types.Type // type of the root variable
+}
+
+type cellStep struct {
+	field int
+	idx   *Term      // array index (symbolic) when not nil
+	idxT  types.Type // type of the index
+	cont  types.Type // container type (struct or array) this step selects from
 }
 
 type closureVal struct {
@@ -77,6 +92,7 @@ type VC struct {
 	globalIdx map[string]int
 	timeouts  int
 	assertSeen map[string]bool
+	ncell      int
 	modCapture *[]modCapture
 	modCache   map[*ssa.Function]*modInfo
 }
@@ -84,12 +100,16 @@ type VC struct {
 type State struct {
 	heaps  map[string]Term
 	roots  map[string][]string
+	cells  map[int]Val
 	epoch  int
 	nalloc Term
 }
 
 func (st *State) clone() *State {
-	n := &State{heaps: make(map[string]Term, len(st.heaps)), roots: make(map[string][]string, len(st.roots)), epoch: st.epoch, nalloc: st.nalloc}
+	n := &State{heaps: make(map[string]Term, len(st.heaps)), roots: make(map[string][]string, len(st.roots)), cells: make(map[int]Val, len(st.cells)), epoch: st.epoch, nalloc: st.nalloc}
+	for k, v := range st.cells {
+		n.cells[k] = v
+	}
 	for k, v := range st.heaps {
 		n.heaps[k] = v
 	}
@@ -368,7 +388,28 @@ func (vc *VC) mergeStates(conds []Term, sts []*State) *State {
 	if len(sts) == 1 {
 		return sts[0].clone()
 	}
-	out := &State{heaps: map[string]Term{}, roots: map[string][]string{}, epoch: sts[0].epoch}
+	out := &State{heaps: map[string]Term{}, roots: map[string][]string{}, cells: map[int]Val{}, epoch: sts[0].epoch}
+	ckeys := map[int]bool{}
+	for _, s := range sts {
+		for k := range s.cells {
+			ckeys[k] = true
+		}
+	}
+	for k := range ckeys {
+		var vs []Val
+		var cs []Term
+		for i, s := range sts {
+			if v, ok := s.cells[k]; ok {
+				vs = append(vs, v)
+				cs = append(cs, conds[i])
+			}
+		}
+		v := vc.mergeVals(cs, vs)
+		if v.Tup == nil && v.Clo == nil {
+			v.T = vc.name("cell", v.T)
+		}
+		out.cells[k] = v
+	}
 	sameEpoch := true
 	for _, s := range sts {
 		if s.epoch != out.epoch {
@@ -596,7 +637,7 @@ func (vc *VC) assumeWF(st *State, v Term, t types.Type) {
 	}
 	switch v.Sort {
 	case SSlice:
-		vc.assume(Term{fmt.Sprintf("(and (bvule (slen %[1]s) (scap %[1]s)) (bvule (scap %[1]s) #x0000010000000000) (<= (alloc (sptr %[1]s)) %[2]s) (=> (= (alloc (sptr %[1]s)) 0) (= %[1]s nilslice)) (=> (> (alloc (sptr %[1]s)) 0) ((_ is PE) (path (sptr %[1]s)))))", v.S, st.nalloc.S), SBool})
+		vc.assume(Term{fmt.Sprintf("(and (bvule (slen %[1]s) (scap %[1]s)) (bvule (scap %[1]s) #x0000010000000000) (<= (alloc (sptr %[1]s)) %[2]s) (>= (alloc (sptr %[1]s)) 0) (=> (= (alloc (sptr %[1]s)) 0) (= %[1]s nilslice)) (=> (> (alloc (sptr %[1]s)) 0) ((_ is PE) (path (sptr %[1]s)))))", v.S, st.nalloc.S), SBool})
 	case SPtr:
 		vc.assume(Term{fmt.Sprintf("(and (<= (alloc %[1]s) %[2]s) (=> (= (alloc %[1]s) 0) (= %[1]s nilptr)))", v.S, st.nalloc.S), SBool})
 	}
